@@ -369,7 +369,13 @@ class EDXMLParserBase(object):
                         raise EDXMLValidationError(
                             'Root element contains invalid version attribute: "%s"' % version_string
                         )
-                    if int(version[0]) != 3 or int(version[1]) > 0:
+                    try:
+                        unsupported = int(version[0]) != 3 or int(version[1]) > 0
+                    except ValueError:
+                        raise EDXMLValidationError(
+                            'Root element contains invalid version attribute: "%s"' % version_string
+                        )
+                    if unsupported:
                         raise EDXMLValidationError('Unsupported EDXML version: "%s"' % version_string)
 
             elif elem.tag == '{http://edxml.org/edxml}event':
